@@ -16,7 +16,8 @@ func init() { commands["c04"] = c04Cmd }
 // c04Cmd (C04 and C05) runs batch lines of python-generated scratch projects in-process
 // (working dir = a tree shaped like /repo/examples) and emits one JSON object per line:
 //
-//	{"line":i,"success":b,"err":s,"days":[[ZEIT,TAG.Index,J,JTAG],...],"echo":[[TEMPdaily,TMINdaily,TMAXdaily,RHdaily,RADdaily,WINDdaily,REGENdaily],...]}
+//	{"line":i,"success":b,"err":s,"days":[[ZEIT,TAG.Index,J,JTAG],...],"echo":[[TEMPdaily,TMINdaily,TMAXdaily,RHdaily,RADdaily,WINDdaily,REGENdaily],...],
+//	 "opt":[[VERD[TAG],SUND[TAG],ETNULL[TAG]] before Evatra,...]}
 //
 // The per-day values are taken by the verif probe at the end of every simulated day
 // (-probe; C04).  Without -probe only the run result is emitted: C05 reads what the run
@@ -54,8 +55,15 @@ func c04Cmd(args []string) {
 		var days [][]int
 		var echo [][]string
 		var vals [][]string
+		var opt [][]string
 		if *probe {
 			hermes.VerifProbe = func(stage string, zeit, subd int, wdt float64, g *hermes.GlobalVarsMain, w *hermes.WaterSharedVars, n *hermes.NitroSharedVars) {
+				if stage == "evatra-pre" {
+					// the optional columns of the day (saturation deficit, sunshine hours, reference evapotranspiration) as Evatra gets them
+					i := g.TAG.Index
+					opt = append(opt, hxs([]float64{g.VERD[i], g.SUND[i], g.ETNULL[i]}))
+					return
+				}
 				if stage != "dayend" {
 					return
 				}
@@ -72,6 +80,7 @@ func c04Cmd(args []string) {
 		if *probe {
 			o["days"] = days
 			o["echo"] = echo
+			o["opt"] = opt
 			if vars != nil {
 				o["vals"] = vals
 			}
